@@ -239,7 +239,7 @@ const findingDeferredBuiltin = "deferred-builtin-runtime-error"
 
 func run(c *hx.Ctx) error {
 	res := c.Res
-	res.Rule = "fault-injection programs and templates (fixed catalogue: every run-time fault at every operation that raises it; generated: recursion/go/defer/panic at depths crossing the 512/1024/2048 stack sizes with 0–3 parameters of each register type), synthetic convertPanic payloads (every operation × sign × class × message), random renderer call sequences over {? & = # , a /} and the empty string, random swapStack arguments; a program case is non-trivial when the VM recovers at least one panic or the stacks grow, a URL case when a URL state flag is set, a swapStack case when a block moves; distinct by input"
+	res.Rule = "fault-injection programs and templates (fixed catalogue: every run-time fault at every operation that raises it; generated: recursion/go/defer/panic at depths crossing the 512/1024/2048 stack sizes with 0–3 parameters of each register type; the matrix callables-as-first-class-values: 51 kinds of callable × 135 storages and transports × {program, template with globals, template importing the package}, whole in the thorough tier, one mode per pair in the quick tier, every case compared with the record real gc leaves for the analogous Go program and attributed, when it fails, to a known finding only by a prediction made from the kind and the storage), synthetic convertPanic payloads (every operation × sign × class × message), random renderer call sequences over {? & = # , a /} and the empty string, random swapStack arguments; a program case is non-trivial when the VM recovers at least one panic or the stacks grow, a URL case when a URL state flag is set, a swapStack case when a block moves; distinct by input"
 	opNames = map[int]string{}
 	for n, v := range hook.OpNames() {
 		opNames[v] = n
